@@ -28,12 +28,23 @@ pub enum Case15 {
     Eager(crate::hb::Scenario),
 }
 
-struct Obs {
+pub(crate) struct Obs {
     last_tip: Option<usize>,
     last_value: Option<Vec<u64>>,
 }
 
-fn observe(w: &mut World, i: usize, obs: &mut Obs, out: &mut Outcome, recomputed_path: bool) -> bool {
+impl Obs {
+    pub(crate) fn new() -> Self {
+        Obs { last_tip: None, last_value: None }
+    }
+    /// An answer obtained outside `observe` (it refreshed the stored value for that tip).
+    pub(crate) fn note(&mut self, tip: usize, value: Vec<u64>) {
+        self.last_tip = Some(tip);
+        self.last_value = Some(value);
+    }
+}
+
+pub(crate) fn observe(w: &mut World, i: usize, obs: &mut Obs, out: &mut Outcome, recomputed_path: bool) -> bool {
     let best = w.model.best_chain();
     let tip = *best.last().unwrap();
     out.checks += 1;
@@ -286,6 +297,9 @@ impl Property for C15 {
     }
     fn max_shrink_iters(&self) -> u32 {
         500
+    }
+    fn fuzz_sequences(&self) -> Vec<(&'static str, usize)> {
+        vec![("/Hist/hist/ops", 40), ("/Eager/evs", 40)]
     }
     fn run(&self, case: &Case15) -> Outcome {
         let mut out = Outcome::default();
